@@ -1391,19 +1391,23 @@ def index_sum_visits_every_axis(chk, rule):
     f = chk.fn(A + "shape::Shape::index_sum_from_flat_unchecked")
     if f is None:
         return
-    its = [it for h in [f] + prog.closures_of(f.path) for it in IT.iterations(prog, h)]
-    ok = False
-    why = "no iteration over the shape found"
+    unit = [f]
+    i_ = 0
+    while i_ < len(unit):
+        unit += [c for c in prog.closures_of(unit[i_].path) if c not in unit]
+        i_ += 1
+    its = [it for h in unit for it in IT.iterations(prog, h)]
+    # nothing on the way drops an axis: no skipping / truncating adaptor anywhere in the function, and a loop over the shape runs to the end
+    DROPPING = ("take_while", "skip_while", "skip", "take", "filter", "filter_map", "step_by", "map_while", "scan", "find", "position", "any", "all", "nth", "last", "flat_map")
+    dropping = sorted({callee_name(t["callee"]).split("::")[-1] for h in unit for b, t in h.calls()
+                       if (t["callee"].get("path") or "").startswith("core::iter::traits::") and callee_name(t["callee"]).split("::")[-1] in DROPPING})
+    early = []
     for it in its:
-        names = [n for n in IT.chain_names(it.chain()) if n not in ("deref", "as_slice", "as_ref")]
         src = it.chain()[-1][1]
-        over_self = src is not None and src[0] == 1
-        plain = sorted(names) in (["iter"], ["copied", "iter"], ["cloned", "iter"], ["enumerate", "iter"], ["iter", "rev"])
-        every = it.runs_for_every_element()
-        why = "%s: adaptors %s, over self=%s, every element visited=%s" % (it.describe(), names, over_self, every)
-        if over_self and plain and every:
-            ok = True
-            break
+        if it.kind == "loop" and src is not None and src[0] == 1 and it.early_exits():
+            early.append(it.describe())
+    ok = not dropping and not early
+    why = "dropping adaptors: %s; loops over the shape left early: %s" % (dropping or "none", early or "none")
     chk.ob(rule, "index_sum_from_flat_unchecked/every-axis-visited", ok, f.loc(), why)
 
 
